@@ -166,7 +166,16 @@ func dirtyPoint(r *kit.Rand, t int64) string {
 	tags := []string{"host=a"}
 	fields := []string{"v=" + renderValue(1.5)}
 	d := kit.Pick(r, dirtyStr)
-	switch r.Intn(9) {
+	bs := kit.Pick(r, []string{"a\\", "\\", "a\\,b", "a\\ b", "x\\y", "a\\=b", "\\\\"})
+	switch r.Intn(13) {
+	case 9: // a backslash in a name (finding stream-backslash-name)
+		name = bs
+	case 10:
+		tags = []string{"host=" + kit.Esc(bs)}
+	case 11:
+		tags = []string{kit.Esc(bs) + "=a"}
+	case 12:
+		fields = []string{kit.Esc(bs) + "=" + renderValue(int64(3))}
 	case 8: // the recorded line is a line protocol comment (finding stream-hash-measurement)
 		name = kit.Pick(r, []string{"#", "#m", "#a b"})
 	case 0:
